@@ -738,6 +738,28 @@ def pair_case(draw, tier):
     return {'steps': steps}
 
 
+COPY_LIKE = ['ctor_Bits', 'ctor_BitArray', 'ctor_ConstBitStream', 'ctor_BitStream', 'kw_bits', 'copy_method', 'copycopy', 'slice_all', 'set_bits_prop', 'get_bits_prop', 'pack_bits',
+             'dtype_build', 'tobitarray_roundtrip', 'fromstring', 'literal', 'add_empty_right', 'empty_append', 'empty_prepend', 'deepcopy']
+
+
+@st.composite
+def chain_case(draw, tier):
+    """derivation chains: x -> d1(x) -> d2(d1) [-> d3(d2)], then in-place edits of the most recently derived mutable objects and of x"""
+    cls = draw(cls_st)
+    steps = [['create', cls, draw(bits_st(max_len=70, min_len=1)), draw(st.sampled_from(['bin', 'literal', 'fromstring', 'hexlit']))]]
+    structural = ['slice_all', 'slice_part', 'slice_step', 'cut', 'split', 'read', 'copy_method', 'copycopy', 'add', 'mul', 'invert', 'join', 'kw_bits', 'set_bits_prop', 'fromstring',
+                  'pack_bits', 'tobitarray_roundtrip', 'empty_append', 'lshift', 'or']
+    steps.append(['derive', draw(st.sampled_from(structural if draw(st.booleans()) else DERIVES)), 0, draw(raw), draw(raw), draw(raw)])
+    for _ in range(draw(st.integers(1, 2))):
+        k = draw(st.integers(0, 3))
+        how = draw(st.sampled_from(['ctor_Bits', 'ctor_BitArray', 'ctor_ConstBitStream', 'ctor_BitStream'])) if k < 2 else draw(st.sampled_from(COPY_LIKE if k == 2 else DERIVES))
+        steps.append(['derive', how, draw(st.sampled_from([-1, -1, -2])), draw(raw), draw(raw), draw(raw)])
+    for _ in range(draw(st.integers(1, 3))):
+        steps.append(['mutate', draw(st.sampled_from(MUTATORS)), draw(st.sampled_from([-1, -2, -2, -3, 0])), draw(raw), draw(raw), draw(raw), draw(bits_st(max_len=12))])
+    steps.append(['derive', draw(st.sampled_from(['ctor_Bits', 'ctor_BitArray', 'copy_method', 'literal', 'slice_all'])), draw(st.sampled_from([-1, -2, 0])), 0, 0, 0])
+    return {'steps': steps}
+
+
 @st.composite
 def source_case(draw, tier):
     steps = [['create_src', draw(st.sampled_from(SOURCE_KINDS)), draw(bits_st(max_len=70, min_len=1)), draw(cls_st)]]
@@ -813,6 +835,7 @@ def array_case(draw, tier):
 
 SUBCHECKS = [
     Sub('C04.derive_then_mutate', run_history, strategy=pair_case, ambient=('bytealigned', 'lsb0'), examples={'quick': 12000, 'thorough': 200000}),
+    Sub('C04.derivation_chains', run_history, strategy=chain_case, ambient=('bytealigned', 'lsb0'), examples={'quick': 12000, 'thorough': 150000}),
     Sub('C04.external_source', run_history, strategy=source_case, ambient=('bytealigned', 'lsb0'), examples={'quick': 5000, 'thorough': 60000}),
     Sub('C04.immutable_surface', run_history, strategy=immutable_case, ambient=('bytealigned', 'lsb0'), examples={'quick': 4000, 'thorough': 50000}),
     Sub('C04.empty_objects', run_history, strategy=empty_case, ambient=('bytealigned', 'lsb0'), examples={'quick': 3000, 'thorough': 40000}),
